@@ -3,7 +3,7 @@
    [wctr V_code] etc. are the faithful models of the current code tied to the code by the history
    correspondence of vlib/parts/C13_window.py. *)
 From Coq Require Import ZArith List Bool QArith Qcanon Permutation.
-From TE Require Import Base.Val Base.Xq Algebra.Metric Algebra.Pool Models.Curves Models.Window Models.WindowAUROC Proofs.WindowP.
+From TE Require Import Base.Val Base.Xq Algebra.Metric Algebra.Pool Models.Curves Models.Window Models.WindowAUROC Proofs.WindowP Proofs.WindowAurocFixP.
 Import ListNotations.
 Open Scope list_scope.
 
@@ -62,7 +62,7 @@ Proof. intros ln a b (H1 & H2 & H3). repeat split; [apply sym_eval_perm; exact H
 
 (* WindowedBinaryAUROC, buffer level: read circularly from the cursor, the buffers hold exactly
    the last min(total, N) samples -- all three insertion cases of update(). *)
-Theorem window_auroc_refines_lastN :
+Theorem window_auroc_buffer_holds_lastN :
   forall (c : acfg) (bs : list (list col)), (0 < aN c)%nat ->
     acontents (after_updates (wauroc V_code) c bs) = lastn (aN c) (List.concat bs).
 Proof. exact auroc_window_holds_lastN. Qed.
@@ -85,7 +85,7 @@ Theorem window_auroc_compute_is_spec :
     cmp (wauroc V_code) c (after_updates (wauroc V_code) c bs) = auroc_ref c (lastn (aN c) (List.concat bs)).
 Proof. exact auroc_compute_is_spec. Qed.
 
-(* The faithful model falsifies the full statement for WindowedBinaryAUROC (D6). *)
+(* The faithful model of the CURRENT compute() (wauroc V_code) falsifies the full statement (D6). *)
 Definition auroc_window_correct : Prop :=
   forall (c : acfg) (bs : list (list col)), (0 < aN c)%nat -> bs <> [] ->
     Forall (fun b => avalid c b = true) bs ->
@@ -123,6 +123,26 @@ Proof.
   split; [cbn; auto with arith|split; [repeat constructor|split; [exact E1|exact E2]]].
 Qed.
 
+(* ---- the REPAIRED compute() (fixes/window-auroc-compute.patch; model wauroc_cfix): the whole
+   buffer is evaluated (unfilled slots have weight 0), [0] instead of squeeze().  Sound because
+   samples of weight 0 never change the AUROC: *)
+Theorem auroc_zero_weight_samples_ignored :
+  forall l Z : list sample, Forall (fun x => wt x = 0%Qc) Z -> auroc_spec (l ++ Z) = auroc_spec l.
+Proof. exact auroc_spec_zero_weights. Qed.
+(* C13 for the repaired class, NO proviso: every window size >= 1, every score (0 included), every
+   batch size, one sample or many, num_tasks >= 1: compute() is the AUROC definition of exactly the
+   last N samples, per task. *)
+Theorem window_auroc_refines_lastN :
+  forall (c : acfg) (bs : list (list col)), (0 < aN c)%nat -> List.concat bs <> [] ->
+    cmp (wauroc_cfix V_code) c (after_updates (wauroc_cfix V_code) c bs) = auroc_ref c (lastn (aN c) (List.concat bs)).
+Proof. exact auroc_fix_refines_lastN. Qed.
+(* non-vacuity: the three D6 witnesses on the repaired model: 1/4, 1/2, [1/2; 1/2] *)
+Example window_auroc_fixed_on_witnesses :
+  cmp (wauroc_cfix V_code) d6_cfg (after_updates (wauroc_cfix V_code) d6_cfg d6_batches) = AScalar (q 1 4) /\
+  cmp (wauroc_cfix V_code) d6_cfg (after_updates (wauroc_cfix V_code) d6_cfg d6b_batches) = AScalar (q 1 2) /\
+  cmp (wauroc_cfix V_code) d6c_cfg (after_updates (wauroc_cfix V_code) d6c_cfg d6c_batches) = AVec [q 1 2; q 1 2].
+Proof. repeat split; vm_compute; reflexivity. Qed.
+
 (* non-vacuity: the docstring example of WindowedClickThroughRate (window 2, three updates) *)
 Example wctr_docstring_example :
   let b (l : list Z) : wbatch := {| b_x := [map (fun z => mkq z 1) l]; b_y := []; b_w := [map (fun _ => mkq 1 1) l] |} in
@@ -138,11 +158,14 @@ Print Assumptions window_refines_queue_wcal.
 Print Assumptions window_refines_queue_mse.
 Print Assumptions window_refines_queue_ne.
 Print Assumptions ne_equiv_same_value.
-Print Assumptions window_auroc_refines_lastN.
+Print Assumptions window_auroc_buffer_holds_lastN.
 Print Assumptions window_auroc_reads_lastN.
 Print Assumptions window_auroc_compute_is_spec.
 Print Assumptions window_auroc_zero_score_refuted.
 Print Assumptions window_auroc_zero_score_witness.
 Print Assumptions window_auroc_single_sample_refuted.
 Print Assumptions window_auroc_one_slot_two_tasks_refuted.
+Print Assumptions auroc_zero_weight_samples_ignored.
+Print Assumptions window_auroc_refines_lastN.
+Print Assumptions window_auroc_fixed_on_witnesses.
 Print Assumptions wctr_docstring_example.
